@@ -546,8 +546,11 @@ func tipCase(w *world, nops int) {
 }
 
 // probeZero: one honest peer and one peer advertising the all-zero filter hash
-// (the "unset" sentinel of checkForCFHeaderMismatch) and serving no filter.
-// Returns true when the false header was committed.
+// and serving no filter.  Until finding zero-hash-sentinel was repaired the zero
+// hash was the "unset" marker of checkForCFHeaderMismatch and this peer escaped
+// the mismatch test in half of the map orders; now it is an ordinary case (the
+// zero-hash peer is banned, the honest header committed).  Returns true when
+// the false header was committed.
 func probeZero(w *world) bool {
 	w.reset(nil)
 	w.begin("tip", 2, true, 3, 2, " probe zero")
@@ -586,15 +589,13 @@ func run(t *tr.W, thorough bool) {
 		}
 	}
 	t.Stats["probe.f12.tries"] = tries
-	tries = 0
-	for tries < 40 {
-		tries++
+	// the former probe of the repaired finding zero-hash-sentinel, a few times
+	// for the map order; any failure is an ordinary violation now
+	for i := 0; i < 4; i++ {
 		if probeZero(w) {
-			t.Hit("probe.zero.false-header-committed")
-			break
+			t.Hit("regress.zero.false-header-committed")
 		}
 	}
-	t.Stats["probe.zero.tries"] = tries
 	if probeHardTip(w) {
 		t.Hit("probe.hard-tip.checkpoint-contradicted")
 	}
